@@ -14,8 +14,8 @@ Second part of the model of pyyeti/nastran/op4.py for C04 (core Lean only):
 
 Library code is modelled by what it computes, not how:
 * `sp.find(m)` = `coo(m).sum_duplicates()` then `data != 0`: for every position the stored values are added in
-  storage order (`np.add.reduceat` over a stable lexsort; exact for fewer than 8 duplicates of one position,
-  pairwise beyond), and positions whose sum is `±0.0` (both parts for complex) are dropped (`foundAt`);
+  storage order (`np.add.reduceat` over a stable lexsort: first value plus the left-to-right sum of the others;
+  exact for at most 8 values at one position, pairwise in blocks beyond), and positions whose sum is `±0.0` (both parts for complex) are dropped (`foundAt`);
 * `_sparse_sort` (`np.lexsort((r, c))`) followed by `(cs == c).nonzero()` = the found entries of column `c`
   in ascending row order (`colEntries`); `sorted(set(cs))` = the columns that have one (`colsWithData`).
 Floating-point addition of duplicates is a parameter `add` of the model (IEEE addition in the driver).
@@ -90,10 +90,12 @@ def addE (add : Nat → Nat → Nat) (a b : Entry) : Entry := (add a.1 b.1, add 
 def valsAt (t : List Trip) (r c : Nat) : List Entry :=
   (t.filter fun x => x.1 == r && x.2.1 == c).map fun x => x.2.2
 
-/-- `np.add.reduceat` over one group of duplicates: a left fold from the first value -/
+/-- `np.add.reduceat` over one group of duplicates `v₀ v₁ … vₖ`: numpy's reduction loop computes
+`v₀ + (v₁ + v₂ + … + vₖ)`, the inner sum from left to right (for `k < 8`; pairwise in blocks beyond) -/
 def sumVals (add : Nat → Nat → Nat) : List Entry → Option Entry
   | [] => none
-  | v :: vs => some (vs.foldl (addE add) v)
+  | [v] => some v
+  | v :: w :: ws => some (addE add v (ws.foldl (addE add) w))
 
 /-- `sp.find(m)` at one position: the sum of the stored values, unless there is none or it is zero -/
 def foundAt (add : Nat → Nat → Nat) (A : SpIn) (r c : Nat) : Option Entry :=
